@@ -295,7 +295,7 @@ class Tracer:
         return self._wp(ev, th=cond.th, pond=cond.surface_storage)
 
     def _ev_root_zone_water(self, a, k, ret):
-        return {"e": "RootZone", "wr": to_num(ret[0]), "nRoot": int(np.sum(a[0].dzsum < round(max(float(a[1]), float(a[4])), 2)) + 1)}
+        return {"e": "RootZone", "wr": to_num(ret[0]), "nRoot": int(min(np.sum(a[0].dzsum < round(max(float(a[1]), float(a[4])), 2)) + 1, len(a[0].dzsum)))}
 
     # ------------------------------------------------------------------ constants / digests
     def _season_crop(self, s):
@@ -306,7 +306,7 @@ class Tracer:
             c = ps.Seasonal_Crop_List[s]
         out = {"calendarType": int(c.CalendarType)}
         for nm in ("CCx", "Zmin", "Zmax", "HI0", "dHI0", "Tbase", "Tupp", "WP", "WPy", "YldWC", "fCO2", "Maturity",
-                   "MaturityCD", "CC0"):
+                   "MaturityCD", "CC0", "Kcb"):
             out[nm] = to_num(getattr(c, nm))
         out["cropType"] = int(c.CropType)
         out["gddMethod"] = int(c.GDDmethod)
